@@ -23,6 +23,8 @@ TUS = {
     "htmc": dict(path="esutil/htm/htmc.cc", cxx=True,
                  filt=["HTMC", "Matcher", "gcirc", "sphdist", "eq2xyz", "PAIR_INFO"],
                  inc=["esutil/include", "esutil/htm", "esutil/htm/htm_src"]),
+    "spatialindex": dict(path="esutil/htm/htm_src/SpatialIndex.cpp", cxx=True, filt=["SpatialIndex"],
+                         inc=["esutil/htm/htm_src", "esutil/htm"]),
     "spatialconvex": dict(path="esutil/htm/htm_src/SpatialConvex.cpp", cxx=True, filt=["SpatialConvex"],
                           inc=["esutil/htm/htm_src", "esutil/htm"]),
     "cosmolib": dict(path="esutil/cosmology/cosmolib.c", cxx=False, filt="", inc=["esutil/cosmology"],
